@@ -129,6 +129,9 @@ void harness_read(void)
 	old = M.len;
 	for (a = 0; a < 7; a++) for (b = 0; b < 5; b++) {
 		if (pa != a || pb != b) continue;
+#ifdef VP_FRI           /* FIONREAD case enumerated by the driver */
+		if (b != VP_FRI) { __CPROVER_assume(0); }
+#endif
 		hm = HM[a]; fr = FR[b];
 		vp_io_fionread_rc = fr < 0 ? -1 : 0; vp_io_fionread = fr;
 		/* what evbuffer_read may ask the kernel for: documented = min(howmuch, max_read, bytes readable) */
@@ -171,15 +174,18 @@ void harness_write(void)
 	compare("prefix");
 	for (a = 0; a < 7; a++) for (rr = -1; rr <= 20; rr++) {
 		if (pa != a || pr != rr) continue;
+#ifdef VP_HMI           /* howmuch case enumerated by the driver */
+		if (a != VP_HMI) { __CPROVER_assume(0); }
+#endif
 		hm = HMW[a];
 		vp_io_force = rr;                     /* the write system call's result: this case's value */
 		eff = (hm < 0 || (size_t)hm > M.len) ? M.len : (size_t)hm;
 #ifdef KF_EXCLUDE_SENDFILE_HOWMUCH
 		/* known finding: a leading sendfile chain is sent whole whatever howmuch says */
-		if (vp_sf_first && eff < vp_sf_first) { __CPROVER_assume(0); }
+		if (vp_sf_first && eff > 0 && eff < vp_sf_first) { __CPROVER_assume(0); }
 #endif
 #ifdef KF_ONLY_SENDFILE_HOWMUCH
-		if (!(vp_sf_first && eff < vp_sf_first)) { __CPROVER_assume(0); }
+		if (!(vp_sf_first && eff > 0 && eff < vp_sf_first)) { __CPROVER_assume(0); }
 #endif
 		if (rr > (long)eff && !(vp_sf_first && rr <= (long)vp_sf_first)) { __CPROVER_assume(0); }
 		vp_io_limit = eff;
@@ -212,7 +218,9 @@ void harness_write(void)
 			compare("after write");
 			if (vp_sf_first && (size_t)r < vp_sf_first)
 				VP_ASSERT(B->first->misalign == 4 + r && B->first->off == vp_sf_first - (size_t)r, "C16: sendfile chain does not continue at the first unsent file byte");
+#if SHAPE != 1
 			VP_WITNESS("C16 write removed the accepted prefix");
+#endif
 		} else {
 			VP_ASSERT(r == 0 || r == -1, "C16: evbuffer_write returns a count, 0 or -1");
 			compare("after failed write");        /* unchanged */
